@@ -5,6 +5,7 @@
   object.  The field transfers are regenerated from the mapper sources on every run.
 -/
 import Minidyn.Generated.Sharing
+import Minidyn.Generated.Fingerprints
 namespace Minidyn.Tie
 open Minidyn.Generated
 
@@ -28,6 +29,21 @@ theorem sharing_covers_mappers :
     covers transfersV2 ["mapDynamoToTypesItem", "mapDynamoToTypesAttributeDefinitionMapOrList", "mapTypesToDynamoItem",
                         "mapTypesToDynamoAttributeDefinitionMapOrList"] = true ∧
     transfersV1.length ≥ 40 ∧ transfersV2.length ≥ 20 := by decide
+
+def fpOf (name : String) : Option String :=
+  (fingerprints.find? fun p => p.1 == name).map (·.2)
+
+/-- the helpers the transfer analysis trusts to return fresh memory (`.fresh`) are the ones that were
+    reviewed: each allocates (`make`, a local whose address is taken) and copies element by element, to
+    the innermost byte.  Their normalised source is pinned here; a rewrite of a helper breaks this theorem
+    (and the poke family of the check then looks for a shared location). -/
+theorem copy_helpers_reviewed :
+    fpOf "v1.copyBytes" = some "ba88506d4435" ∧ fpOf "v1.copyBytesSlice" = some "5bba426f143a" ∧
+    fpOf "v1.copyString" = some "614d66b5dd80" ∧ fpOf "v1.copyStringSlice" = some "23e3f9df9b07" ∧
+    fpOf "v1.copyBool" = some "fd5d41562142" ∧
+    fpOf "v2.copyBytes" = some "ba88506d4435" ∧ fpOf "v2.copyBytesSlice" = some "5bba426f143a" ∧
+    fpOf "v2.toStringSlice" = some "b3e1bc8ef0b2" ∧ fpOf "v2.toString" = some "73a0da9dda6f" ∧
+    fpOf "core.copyItem" = some "c01b5c94c6fd" := by decide +kernel
 
 /-- no `&TRUE.Value`-style expression is left in interpreter/language -/
 theorem no_singleton_leak : singletonLeaks = [] := by decide
